@@ -10,7 +10,7 @@ prefix = sys.argv[2] if len(sys.argv) > 2 else ''
 only = set(sys.argv[3:])
 # which other checks to try when the property's own check does not fire
 CROSS = {'C02': ['C01', 'C06', 'C12'], 'C07': ['C01', 'C06'], 'C03': ['C09'], 'C04': ['C09'],
-         'C11': ['C09'], 'C01': ['C06'], 'C05': ['C06'], 'C08': ['C07'], 'C14': ['C02'], 'C17': ['C09'], 'C18': ['C14']}
+         'C11': ['C09'], 'C01': ['C06'], 'C05': ['C06', 'C03'], 'C06': ['C08'], 'C10': ['C03'], 'C08': ['C07'], 'C14': ['C02'], 'C17': ['C09'], 'C18': ['C14']}
 for d in sorted(os.listdir(src)):
     m = re.match(r'out_(C\d\d)$', d)
     if not m or (only and m.group(1) not in only):
